@@ -280,7 +280,20 @@ pub fn run_c14(tier: &str) -> i32 {
                 let t_ab = format!("{}{}", ca, cb);
                 let t_ba = format!("{}{}", cb, ca);
                 match (t_ab.parse::<CardPair>(), t_ba.parse::<CardPair>()) {
-                    (Ok(x), Ok(y)) if x == y && x == p => {}
+                    (Ok(x), Ok(y)) if x == y && x == p => {
+                        // equal values must be indistinguishable: same hashes, same elements
+                        for (v, t) in [(x, &t_ab), (y, &t_ba)] {
+                            if h_default(&v) != h_default(&p) || h_fx(&v) != h_fx(&p) {
+                                problems.push(format!("pair parsed from {:?} equals new(a,b) but hashes differently", t));
+                            }
+                            if v[0] != first || v[1] != second {
+                                problems.push(format!("pair parsed from {:?} has elements {:?},{:?}", t, v[0], v[1]));
+                            }
+                            if v.to_string() != expect_text {
+                                problems.push(format!("pair parsed from {:?} prints {:?}", t, v.to_string()));
+                            }
+                        }
+                    }
                     _ => problems.push(format!("texts {:?} / {:?} do not parse to the same pair", t_ab, t_ba)),
                 }
                 problems
@@ -311,7 +324,23 @@ pub fn run_c14(tier: &str) -> i32 {
     if r.as_ref().ok() != Some(&1326) {
         v(&mut rep, "range-keys", "range of all ordered pairs".into(), json!({}), json!(1326), res(&r));
     }
-    rep.sub("range-keys", "a HandRange collected from all 2,652 ordered pairs holds exactly 1,326 keys", 2652, 1326, true, json!({}));
+    let r2 = catch(move || {
+        let mut texts = vec![];
+        for a in 0..52u8 {
+            for b in 0..52u8 {
+                if a != b {
+                    texts.push(format!("{}{}", card_text(a), card_text(b)));
+                }
+            }
+        }
+        let range: HandRange = texts.join(",").parse().unwrap();
+        let looked_up = (0..52u8).flat_map(|a| (0..52u8).filter(move |b| *b != a).map(move |b| (a, b))).filter(|(a, b)| range.card_pairs().contains_key(&CardPair::new(all[*a as usize], all[*b as usize]))).count();
+        (range.card_pairs().len(), looked_up)
+    });
+    if r2.as_ref().ok() != Some(&(1326, 2652)) {
+        v(&mut rep, "range-keys", "range parsed from all ordered pair texts".into(), json!({}), json!([1326, 2652]), res(&r2));
+    }
+    rep.sub("range-keys", "a HandRange collected from all 2,652 ordered pairs, and one parsed from all 2,652 ordered pair texts, hold exactly 1,326 keys, each found by looking up new(a,b) in either order", 2652 * 2, 1326, true, json!({}));
     rep.sample(json!({"new(Ks,As)": CardPair::new(all[4], all[0]).to_string(), "new(As,Ks)": CardPair::new(all[0], all[4]).to_string()}));
     rep.finish()
 }
